@@ -59,14 +59,30 @@ def _run_shard(check, cases, scratch, idx, timeout, extra_env):
     e["VMON_SCRATCH"] = os.path.join(scratch, "w%d" % idx)
     os.makedirs(e["VMON_SCRATCH"], exist_ok=True)
     timed_out = False
+    # backstop behind the worker's own per-case watchdog: the worker writes a line when a case starts and when it
+    # ends, so an output file that has not grown for longer than the longest case budget (+ slack) means the
+    # in-flight case escaped its watchdog; the worker is killed, that case is inconclusive, the rest is re-run
+    stall = max([int(c.get("timeout", 0) or 0) for c in cases] + [int(os.environ.get("VMON_CASE_TIMEOUT_MAX", "0") or 0), 120]) + 150
     with open(lpath, "w") as lf:
-        try:
-            subprocess.run(
-                [env.PYTHON, "-B", "-m", "vmon.worker", check, cpath, opath],
-                cwd=env.VERIF, env=e, stdout=lf, stderr=subprocess.STDOUT, timeout=timeout,
-            )
-        except subprocess.TimeoutExpired:
-            timed_out = True
+        p = subprocess.Popen([env.PYTHON, "-B", "-m", "vmon.worker", check, cpath, opath],
+                             cwd=env.VERIF, env=e, stdout=lf, stderr=subprocess.STDOUT)
+        t_start = time.time()
+        while True:
+            try:
+                p.wait(timeout=5)
+                break
+            except subprocess.TimeoutExpired:
+                pass
+            now = time.time()
+            try:
+                last = os.path.getmtime(opath)
+            except OSError:
+                last = t_start
+            if now - t_start > timeout or now - max(last, t_start) > stall:
+                timed_out = True
+                p.kill()
+                p.wait()
+                break
     results, summary, fatal, started = [], None, None, None
     if os.path.exists(opath):
         with open(opath) as f:
@@ -116,6 +132,7 @@ def run(check, tier, seed, jobs=None, replay=None, only=None, extra_env=None, ke
         cases = [c for c in cases if re.search(only, c["id"])]
     scratch = tempfile.mkdtemp(prefix="vmon-%s-" % prop)
     case_to = int(getattr(mod, "CASE_TIMEOUT", 120))
+    os.environ["VMON_CASE_TIMEOUT_MAX"] = str(case_to)
     chunk = int(getattr(mod, "CHUNK", 0)) or max(1, -(-len(cases) // (jobs * 3)))
     # interleave so that heavy neighbours spread over shards
     nshards = max(1, -(-len(cases) // chunk))
